@@ -8,7 +8,7 @@ C01 (front end, structured control flow): composition of the front end's output 
 * `resolveOps_run`: resolving every operand through the alias table and dropping the table does not change the
   outcome (any function).
 -/
-import Wz.Model.FrontendCF
+import Wz.Model.FrontendCFCheck
 import Wz.Proofs.C01_SsaPass_PhiC
 import Wz.Proofs.C01_SsaPass_Dce
 import Wz.Proofs.C01_SsaPass_DeadBlock
@@ -47,9 +47,10 @@ theorem passes_sound_of_WF_without_alias (w : World) (f : Func) (c : Cert) (h : 
   rw [← passes_sound_of_WF w f c h args fuel]
   exact dceWith_no_alias w sideEffect _ ((aliasNF_iff _).mpr hw3.nf) args fuel
 
-/-- every operand resolved through the alias table, the table dropped -/
-def resolveOps (f : Func) : Func :=
-  { blocks := f.blocks.map (fun B => { B with instrs := B.instrs.map (·.mapOperands (res f.alias)) }), alias := [] }
+end Wz.Model.SsaPass
+
+namespace Wz.Model.FrontendCF
+open Wz.Model.SsaPass
 
 theorem execBody_resolve (w : World) (al : List (Val × Val)) : ∀ (is : List Instr) (st : St),
     execBody w [] (is.map (·.mapOperands (res al))) st = execBody w al is st := by
@@ -107,7 +108,7 @@ theorem resolveOps_run (w : World) (f : Func) (args : List Nat) (fuel : Nat) :
           | ret _ _ => rfl
           | trap _ _ => rfl
 
-end Wz.Model.SsaPass
+end Wz.Model.FrontendCF
 
 namespace Wz.Proofs.FrontCF
 open Wz.Model.SsaPass Wz.Model.FrontendCF
